@@ -39,7 +39,8 @@ struct DAtom
 };
 struct OVar
 {
-  unsigned dom; // bitmask over the value universe
+  unsigned dom;      // bitmask over the value universe
+  bool lazy = false; // created with enforce_exct_one = false (the planner's variant: exclusion is left to the caller)
 };
 struct Spec
 {
@@ -110,7 +111,7 @@ static std::string spec_txt(const Spec &s)
   {
     t += " nval=" + std::to_string(s.nval);
     for (auto &v : s.ov)
-      t += " ov:" + std::to_string(v.dom);
+      t += " ov:" + std::to_string(v.dom) + (v.lazy ? "n" : "");
     for (size_t i = 0; i < s.oe.size(); ++i)
       t += " oe:" + std::to_string(s.oe[i].first) + "," + std::to_string(s.oe[i].second) + (i < s.oe_after.size() && s.oe_after[i] ? "@" + std::to_string(s.oe_after[i]) : "");
   }
@@ -212,7 +213,7 @@ static void parse_case(const std::string &txt, Spec &s, std::vector<Op> &h)
         (tok[0] == 'i' ? s.ia : s.ra).push_back(a);
       }
       else if (tok.rfind("ov:", 0) == 0)
-        s.ov.push_back(OVar{(unsigned)std::atoi(tok.c_str() + 3)});
+        s.ov.push_back(OVar{(unsigned)std::atoi(tok.c_str() + 3), tok.back() == 'n'});
       else if (tok.rfind("oe:", 0) == 0)
       {
         std::string body = tok.substr(3);
@@ -385,7 +386,7 @@ static void build(Net &n, const Spec &s, bool initial_propagate = true)
       for (int v = 0; v < s.nval; ++v)
         if (o.dom & (1u << v))
           items.push_back(n.vals[v].get());
-      var ov = n.ov->new_var(items);
+      var ov = o.lazy ? n.ov->new_var(items, false) : n.ov->new_var(items);
       n.ov_vars.push_back(ov);
       std::vector<int> sl(s.nval, 0);
       for (int v = 0; v < s.nval; ++v)
@@ -752,6 +753,8 @@ static void oracle_ov_construction(const Ctx &c, const Net &n0, const std::vecto
   TT F = nr::cnf_tt(k, nr::read_cnf(n0.sat));
   for (size_t v = 0; v < s.ov.size(); ++v)
   {
+    if (s.ov[v].lazy)
+      continue; // no exactly-one clause by construction
     std::vector<lit> ls;
     for (int val = 0; val < s.nval; ++val)
       if (s.ov[v].dom & (1u << val))
@@ -780,6 +783,8 @@ static void oracle_ov_construction(const Ctx &c, const Net &n0, const std::vecto
   for (size_t e = 0; e < s.oe.size(); ++e)
   {
     int a = s.oe[e].first, b = s.oe[e].second;
+    if (s.ov[a].lazy || s.ov[b].lazy)
+      continue; // "same value" presupposes exactly one value per variable
     TT same(k, false);
     for (int val = 0; val < s.nval; ++val)
       if ((s.ov[a].dom & (1u << val)) && (s.ov[b].dom & (1u << val)))
@@ -1479,6 +1484,28 @@ static void families(const std::string &prop, const std::string &tier)
               for (auto i : idx)
                 s.la.push_back(pool[i]);
               g_specs.push_back(s); });
+    // (F) fan-out: 1 boolean + 4 atoms and two binary clauses with the same trigger literal, so that one assignment
+    // queues several theory literals (a conflict raised by propagate() arrives while others are pending)
+    {
+      std::vector<LAtom> latoms = {LA({1, 0}, 0, 1), LA({1, 0}, 2, 2), LA({1, 1}, 0, 2), LA({0, 1}, 3, 1)};
+      for (int t = 1; t <= 5; ++t)
+        for (int st = -1; st <= 1; st += 2)
+          for (int u = 1; u <= 5; ++u)
+            for (int su = -1; su <= 1; su += 2)
+              for (int v = u + 1; v <= 5; ++v)
+                for (int sv = -1; sv <= 1; sv += 2)
+                {
+                  if (u == t || v == t)
+                    continue;
+                  Spec l;
+                  l.nb = 1;
+                  l.nlra = 2;
+                  l.la = latoms;
+                  l.cl = {{-st * t, su * u}, {-st * t, sv * v}};
+                  l.depth = th ? 4 : 3;
+                  g_specs.push_back(l);
+                }
+    }
     // (B) boxes: ALL 4-subsets of a reduced pool (x, y, x-y against 0 and 1 with <= and >=), so that a row with
     // coefficients of both signs is propagated while BOTH bounds of one of its variables are finite and each of the
     // bounds involved has its own reason literal; one level shallower than the 3-atom networks
@@ -1566,6 +1593,32 @@ static void families(const std::string &prop, const std::string &tier)
         r.alphabet = "Ap";
         g_specs.push_back(r);
       }
+    }
+    // (C) chains over all 4 points: for EVERY ordering p0..p3 of the points the three unit edges p0->p1->p2->p3 and one
+    // shortcut atom between the end points (implied, just not implied, or contradicting the chain): the incremental
+    // update has to splice a new edge in front of / behind a path of several edges, and explanations walk that path
+    {
+      int perm[4] = {0, 1, 2, 3};
+      do
+      {
+        for (int sc = 0; sc < 4; ++sc)
+        {
+          DAtom shortcut = sc == 0 ? DAtom{(size_t)perm[0], (size_t)perm[3], Q(5)} : sc == 1 ? DAtom{(size_t)perm[0], (size_t)perm[3], Q(3)}
+                                                                                 : sc == 2   ? DAtom{(size_t)perm[0], (size_t)perm[3], Q(2)}
+                                                                                             : DAtom{(size_t)perm[3], (size_t)perm[0], Q(-4)};
+          std::vector<DAtom> atoms = {{(size_t)perm[0], (size_t)perm[1], Q(1)}, {(size_t)perm[1], (size_t)perm[2], Q(1)}, {(size_t)perm[2], (size_t)perm[3], Q(1)}, shortcut};
+          Spec i;
+          i.nidl = 3;
+          i.ia = atoms;
+          i.depth = th ? 4 : 3;
+          g_specs.push_back(i);
+          Spec r;
+          r.nrdl = 3;
+          r.ra = atoms;
+          r.depth = i.depth;
+          g_specs.push_back(r);
+        }
+      } while (std::next_permutation(perm, perm + 4));
     }
     // (F) fan-out: 1 boolean + 4 atoms on a 3-cycle with a repeated pair and two binary clauses with the same trigger
     // literal, (!t | u) and (!t | v): one assignment queues several theory literals, so that a conflict raised by
@@ -1685,6 +1738,24 @@ static void families(const std::string &prop, const std::string &tier)
         g_specs.push_back(s);
         Spec t = s;
         t.oe = {{1, 0}, {0, 1}};
+        g_specs.push_back(t);
+      }
+    // lazy variables (enforce_exct_one = false, as the planner creates enum variables): EVERY pair of domains, with and
+    // without an equality request; the reported domain must be exactly the values whose literal is not false, whatever
+    // combination of value literals the history makes true
+    for (unsigned d0 = 1; d0 <= 7; ++d0)
+      for (unsigned d1 = 1; d1 <= 7; ++d1)
+      {
+        if (__builtin_popcount(d0) < 2 && __builtin_popcount(d1) < 2)
+          continue;
+        Spec s;
+        s.nval = 3;
+        s.ov = {{d0, true}, {d1, true}};
+        s.depth = th ? 4 : 3;
+        g_specs.push_back(s);
+        Spec t = s;
+        t.ov = {{d0, true}, {d1, false}};
+        t.oe = {{0, 1}};
         g_specs.push_back(t);
       }
     // interleaved: 5 (6) variables over 3 values (singleton and overlapping two-value domains); one equality is requested as soon
